@@ -1399,7 +1399,7 @@ impl<R: std::io::Read> Decoder<R> {
             .blocks
             .streaminfo()
             .total_samples
-            .map(|total| total.get() - self.current_sample)
+            .map(|total| total.get().saturating_sub(self.current_sample))
         {
             Some(0) => return Ok(None),
             Some(remaining) => FrameHeader::read(crc16_reader.by_ref(), self.blocks.streaminfo())
